@@ -6,7 +6,7 @@
    peers, envelopes, faults, any interleaving of the goroutines. *)
 From Coq Require Import List ZArith Bool.
 Import ListNotations.
-From Goat Require Import Model.Proxy Proofs.ProxyProofs.
+From Goat Require Import Model.Proxy Proofs.ProxyProofs Proofs.ProxyOrder.
 Open Scope Z_scope.
 
 (* per destination record i: what was enqueued for i is, in order, what i's connection was handed, then at
@@ -67,6 +67,32 @@ Theorem C16_dial_once : forall cf ls s, lrun cf init ls = Some s ->
 Proof. exact C16_dial_once_l. Qed.
 Print Assumptions C16_dial_once.
 
+(* order per source-destination pair: the envelopes of source record j enqueued for destination record i, taken in
+   the order of the history, are - as received - an in-order sub-sequence of the envelopes the proxy accepted from
+   j, which are an in-order sub-sequence of what the forwarding loop received from j (by C16_source_order: of what
+   j's peer sent, in its order); and - as handed on - an in-order sub-sequence of what was enqueued for i (by
+   C16_accounting: handed to i's connection in exactly that order). One list of pairs, two projections: the
+   k-th envelope of j among those handed to i is the transformation of the k-th envelope j sent to i *)
+Theorem C16_pair_order : forall cf ls s, lrun cf init ls = Some s -> forall j i,
+  Subseq (map fst (pairs j i (log s))) (accepted j (log s)) /\
+  Subseq (accepted j (log s)) (cmds j (log s)) /\
+  Subseq (map snd (pairs j i (log s))) (enqs i (log s)).
+Proof. exact C16_pair_order_l. Qed.
+Print Assumptions C16_pair_order.
+
+(* The unconditional statement - every accepted envelope is eventually handed on, hence "a relayed stream is never
+   reported complete with messages missing" - is FALSE of the code as it is: beyond the per-destination buffer the
+   non-blocking enqueue drops (finding proxy-overflow>buf, D-16; by design: it is what C17's isolation relies on).
+   Witness: a quiescent reachable state in which an accepted envelope is in no queue, was not handed on and was
+   not the object of a failed write. C16_no_loss above is the strongest true statement (no loss while no envelope
+   finds the buffer full); C16_drop_only_when_full says these are the only losses. The rig replays the witness on
+   the real proxy (burst scenarios: 18 envelopes to a destination whose writer is blocked). *)
+Theorem C16_complete_means_complete_refuted : exists cf ls s i x,
+  lrun cf init ls = Some s /\ quiescent cf s = true /\ In x (fwds i (log s)) /\
+  ~ In x (outs i (log s) ++ wfails i (log s) ++ wr_pend s i ++ buf_of s i).
+Proof. exact C16_no_loss_refuted_l. Qed.
+Print Assumptions C16_complete_means_complete_refuted.
+
 (* ---------- the hypotheses are satisfiable ---------- *)
 Definition cf0 : cfg := mkCfg 99 2 (fun _ d => Some d).
 Definition m (src dst pay : Z) : env := mkEnv true src dst [] None pay.
@@ -80,7 +106,8 @@ Definition ex16 : list label :=
 Example C16_ex : exists s, lrun cf0 init ex16 = Some s /\
   outs 1 (log s) = [mkEnv true 1 2 [99] None 70; mkEnv true 1 2 [99] None 71] /\
   outs 2 (log s) = [mkEnv true 1 3 [99] None 72] /\ dials (log s) = [(2%nat, 3)] /\
-  dropped 1 (log s) = [] /\ quiescent cf0 s = true.
+  dropped 1 (log s) = [] /\ quiescent cf0 s = true /\
+  pairs 0 1 (log s) = [(m 1 2 70, mkEnv true 1 2 [99] None 70); (m 1 2 71, mkEnv true 1 2 [99] None 71)].
 Proof. eexists. split. vm_compute. reflexivity. vm_compute. repeat split; reflexivity. Qed.
 
 (* the known limit (finding proxy-overflow>buf): with the destination's write loop stalled, the envelope that
